@@ -163,6 +163,26 @@ def _one_case(rep, spec, index, edit):
         def call():
             return getattr(sc.pv, kind)(**sc.call_kwargs())
 
+    if rng.random() < 0.15:
+        # initial permeances that (almost) coincide with what the fits give at the initial state - e.g. values read off an
+        # earlier run and typed in with a few digits: a first pass without initial permeances yields the fitted values
+        from pyvaporation.permeance import Permeance
+
+        saved = sc.initial_permeances
+        sc.initial_permeances = None
+        try:
+            with guards.budget(proc.SOFT_BUDGET):
+                r0 = call()
+            d1, d2 = rng.choice([0.0, 1e-6, -1e-5, 1e-3]), rng.choice([0.0, 1e-6, -1e-5, 1e-3])
+            v1, v2 = r0.permeances[0][0].value * (1 + d1), r0.permeances[0][1].value * (1 + d2)
+            if v1 > 0 and v2 > 0:
+                sc.initial_permeances = (Permeance(value=v1), Permeance(value=v2))
+                case["initial_permeances_near_the_fitted_values"] = [d1, d2]
+                case["initial_permeances"] = [[v1, "kg/(m2*h*kPa)"], [v2, "kg/(m2*h*kPa)"]]
+            else:
+                sc.initial_permeances = saved
+        except (Exception, guards.BudgetExceeded):
+            sc.initial_permeances = saved
     pvmod.find_best_fit = fbf
     Membrane.calculate_activation_energy = ea
     try:
